@@ -4,10 +4,12 @@ package c17
 
 import (
 	"strconv"
+	"strings"
 
 	"pgregory.net/rapid"
 
 	"wzverif/internal/gen"
+	"wzverif/internal/kit"
 )
 
 // ---------------------------------------------------------------------------------------------
@@ -68,15 +70,17 @@ type g struct {
 	ctxAny    bool // nested loops may use this / @index / @first / @last
 	absentAny bool // items may lack the list field a nested loop runs over without having another list field
 	// collected while generating the template
-	usedVars  map[string]bool
-	usedConds map[string]bool
-	trueConds map[string]bool // conditions that must be true (an If-Else over them while else is restricted)
-	trueBools map[string]bool // same for item bool fields
-	usedLists map[string]bool
-	usedImgs  map[string]bool
-	n         int    // label counter
-	seed      uint64 // see salt
-	nData     int    // data sets drawn so far
+	usedVars   map[string]bool
+	usedConds  map[string]bool
+	trueConds  map[string]bool // conditions that must be true (an If-Else over them while else is restricted)
+	trueBools  map[string]bool // same for item bool fields
+	usedLists  map[string]bool
+	usedImgs   map[string]bool
+	names      []string // the template names of this history (tplNames or exoticNames)
+	twoEngines bool     // calls on another engine are mixed into the history
+	n          int      // label counter
+	seed       uint64   // see salt
+	nData      int      // data sets drawn so far
 }
 
 func (x *g) lbl(s string) string { x.n++; return s + strconv.Itoa(x.n) }
@@ -316,8 +320,26 @@ var valBraceSafe = []string{"a{b", "c}d", "x { y } z", "{ }", "{k}", "q}", "{ {x
 var valMultiline = []string{"line1\nline2", "\nlead", "trail\n", "a\n\nb", " \n "}
 
 func (x *g) scalar() Val {
-	k := x.intn(0, 19, "valk")
+	k := x.intn(0, 22, "valk")
 	switch {
+	case k == 20: // numbers of other Go types, and the corners of the usual ones
+		switch x.uniform(6, "vnum") {
+		case 0:
+			return Val{T: "i32", S: strconv.Itoa(x.intn(-40, 40, "vi32") * 1000)}
+		case 1:
+			return Val{T: "u", S: strconv.Itoa(x.intn(0, 300, "vu"))}
+		case 2:
+			return Val{T: "f32", S: x.float().S}
+		case 3:
+			return Val{T: "i", S: x.pick([]string{"0", "-1", "-0", "2147483647", "-2147483648"}, "vi0")}
+		case 4:
+			return Val{T: "l", S: x.pick([]string{"0", "-1", "9223372036854775807", "-9223372036854775808"}, "vl0")}
+		}
+		return Val{T: "f", S: x.pick([]string{"0", "-0", "1e21", "-1e-7", "NaN", "+Inf", "0.1"}, "vf0")}
+	case k == 21: // values that are slices / maps of a concrete type (printed as Go prints them)
+		return x.typedSeq(x.pick([]string{"as", "as", "ai", "af", "ms", "am"}, "vseqk"))
+	case k == 22: // long texts, and a multi-byte character at every position a cut could fall on
+		return Val{T: "s", S: strings.Repeat(x.pick([]string{"0123456789", "é", "東京", "😀a", "x "}, "vlongw"), []int{7, 11, 26, 33, 103}[x.uniform(5, "vlongn")])}
 	case k < 8:
 		return Val{T: "s", S: x.pick(valWords, "vw")}
 	case k < 9:
@@ -340,6 +362,53 @@ func (x *g) scalar() Val {
 		return Val{T: "n"}
 	}
 	return Val{T: "s", S: x.pick(valWords, "vw") + " " + x.pick(valWords, "vw2")}
+}
+
+// typedSeq draws a value of one of the typed kinds: as / ai / af (0-3 elements), am (0-2 small maps), ms (0-2 entries).
+func (x *g) typedSeq(kind string) Val {
+	v := Val{T: kind}
+	n := x.intn(0, 3, "tseqn")
+	switch kind {
+	case "ms":
+		v.M = map[string]Val{}
+		for i := 0; i < n && i < 2; i++ {
+			v.M[[]string{"k", "z", "a"}[i]] = Val{T: "s", S: x.pick(valWords, "tseqw")}
+		}
+	case "am":
+		for i := 0; i < n && i < 2; i++ {
+			v.L = append(v.L, Val{T: "m", M: map[string]Val{"n": {T: "s", S: x.pick(valWords, "tseqw")}, "v": {T: "i", S: strconv.Itoa(x.intn(-5, 50, "tseqi"))}}})
+		}
+	case "ai":
+		for i := 0; i < n; i++ {
+			v.L = append(v.L, Val{T: "i", S: strconv.Itoa(x.intn(-5, 50, "tseqi"))})
+		}
+	case "af":
+		for i := 0; i < n; i++ {
+			v.L = append(v.L, x.float())
+		}
+	default:
+		for i := 0; i < n; i++ {
+			v.L = append(v.L, Val{T: "s", S: x.pick(valWords, "tseqw")})
+		}
+	}
+	return v
+}
+
+// typedList turns a drawn list ([]interface{} for the API) into the slice of a concrete type a caller may hold
+// instead: []map[string]interface{} for items that are maps, []string for scalar items (each as its text).
+func typedList(s *schema, l []Val) Val {
+	if !s.scalar {
+		return Val{T: "am", L: l}
+	}
+	out := Val{T: "as"}
+	for _, e := range l {
+		t := e.S
+		if e.T == "b" {
+			t = strconv.FormatBool(e.B)
+		}
+		out.L = append(out.L, Val{T: "s", S: t})
+	}
+	return out
 }
 
 // float draws a float64 through a decimal text with 1-3 fractional digits whose last digit is not 0: that text
@@ -377,6 +446,13 @@ func (x *g) item(s *schema, depth int) Val {
 		}
 		return v
 	}
+	if x.chance(2, "itemms") { // an item that is a map of another type: no field access, {{this}} prints it
+		v := Val{T: "ms", M: map[string]Val{}}
+		for _, f := range s.fields {
+			v.M[f] = Val{T: "s", S: x.pick(valWords, "itemmsw")}
+		}
+		return v
+	}
 	m := map[string]Val{}
 	for _, f := range s.fields {
 		if x.chance(88, "fpres") {
@@ -405,6 +481,9 @@ func (x *g) item(s *schema, depth int) Val {
 		}
 		nlists++
 		m[sub.name] = Val{T: "a", L: x.list(sub, depth+1)}
+		if x.chance(9, "styped") { // the caller's own slice type in place of []interface{}
+			m[sub.name] = typedList(sub, m[sub.name].L)
+		}
 	}
 	return Val{T: "m", M: m}
 }
@@ -413,6 +492,9 @@ func (x *g) list(s *schema, depth int) []Val {
 	n := []int{0, 1, 2, 2, 3, 3, 4}[x.intn(0, 6, "listn")]
 	if depth >= 2 && n > 3 {
 		n = 2
+	}
+	if depth == 1 && !kit.RaceMode() && x.chance(kit.Scale(1, 2), "listlong") { // lists past 10 / 16 / 32 / 64 items
+		n = []int{10, 11, 11, 17, 17, 33, 65}[x.uniform(7, "listlongn")]
 	}
 	out := make([]Val, 0, n)
 	for i := 0; i < n; i++ {
@@ -452,7 +534,11 @@ func (x *g) data() Data {
 		i++
 		if x.usedImgs[im] { // always supplied: the documents do not say what a missing image renders as
 			// the format is rotated by the number of the data set: the simplest draw gives every data set another format
-			d.Images[im] = gen.Img{Fmt: []string{"png", "jpeg", "gif"}[(x.intn(0, 2, "imf")+x.nData)%3], W: 3 + 4*i, H: 2 + 3*i, Pat: x.intn(0, 1000, "imp"), Name: im}
+			img := gen.Img{Fmt: []string{"png", "jpeg", "gif"}[(x.intn(0, 2, "imf")+x.nData)%3], W: 3 + 4*i, H: 2 + 3*i, Pat: x.intn(0, 1000, "imp"), Name: im}
+			if x.chance(6, "imbad") { // a picture the render cannot use: the payload is no picture, or the file is not there
+				img.Fmt = x.pick([]string{"broken", "nofile"}, "imbadk")
+			}
+			d.Images[im] = img
 		}
 	}
 	x.nData++
